@@ -142,6 +142,9 @@ func (w *World) defaultKey() string {
 	}
 	sort.Strings(vs)
 	fmt.Fprintf(h, "vars:%v;", vs)
+	// background work still outstanding when the last request returned (the continuation of the search does not
+	// wait for it): the number of live shrinker threads
+	fmt.Fprintf(h, "shrinkers:%d;", w.Srv.VerifShrinker().VerifNThread())
 	// disk (home region) after everything has been installed
 	if w.Pending {
 		w.Flush()
